@@ -108,8 +108,12 @@ def search(ctx, res, problems):
     return [{"kind": "spec", **sf} for sf in r2.specfail[:10]]
 
 
+import sys as _sys  # noqa: E402
+_sys.path.insert(0, os.path.dirname(os.path.abspath(__file__)))
+import _prng_common as _pc  # noqa: E402
+
 PROP = {
-    "streams": streams, "search": search,
+    "streams": streams, "search": search, "translators": _pc.translators_prng,
     "rule": "every request history runs in its own process (forked child; generator state is process-global) with nfl::randombytes "
             "replaced by a seeded key; per request: <index, length, placement, key, run-length history> => seed calls so far, red zone "
             "intact, portable C agrees, output bytes (full up to 1 KiB, beyond that digests of every 256-byte chunk + first/last 64 bytes); "
@@ -135,6 +139,7 @@ PROP = {
             "one byte (8 positions), nonce = all bytes equal except one, the nonce classes above, key = 0 except one byte of each word (all 32 positions at length 703); portable C core/quarterround on the examples of the "
             "Salsa20 specification (incl. Salsa20^1000000) and random inputs against the Lean specification; distinct = distinct op lines",
     "trusted_base": props.COMMON_TB + [
+        _pc.PRNG_AST_TB,
         "nfl_crypto_stream_salsa20_amd64_xmm6.s (4823 lines of assembly) is NOT modelled: its equality with the Lean Salsa20/20 stream and the absence of writes outside the buffer are observed on the generated requests only (guard pages, red zones, byte-for-byte comparison); request lengths go up to 2^33+100 bytes (block counter < 2^27+2); block counters ≥ 2^32 (a single request ≥ 256 GiB) are never exercised",
         "requests longer than 2^21 bytes are compared over their whole length with the portable C Salsa20 only (4-lane form, self-tested against the flat form incl. counters around 2^32); the Lean specification sees sampled windows of them (about 450 windows of 128 bytes per request)",
         "my transcription of the examples of the Salsa20 specification (they agree with Lean, portable C and the assembly)",
